@@ -12,6 +12,7 @@ an exception raised by the interpreted code is RaisedInModel / ProgramRaised (=>
 from __future__ import annotations
 
 import ast
+import re as _re
 import builtins as _builtins
 
 from .peval import Evaluator, Model, Unsupported, RaisedInModel, ProgramRaised, ReturnValue, _Continue, _Break
@@ -204,6 +205,11 @@ class ModelEval(Evaluator):
             raise Raised("AttributeError", node, "NoneType has no attribute %s" % a)
         if isinstance(base, (slice, range)) and a in ("start", "stop", "step", "indices", "index", "count"):
             return getattr(base, a)
+        if isinstance(base, (_re.Pattern, _re.Match)) and not a.startswith("_"):
+            try:
+                return getattr(base, a)
+            except AttributeError:
+                raise Raised("AttributeError", node, "%s has no attribute %s" % (type(base).__name__, a))
         if isinstance(base, (int, float)):
             if a in ("real", "imag", "is_integer", "bit_length", "conjugate"):
                 return getattr(base, a)
